@@ -188,12 +188,8 @@ Lemma ext_step_code_iff : forall tgt s, ext_step_code tgt s = 0%nat <-> ext_step
 Proof.
   intros tgt s. destruct s as [[[i a] pp] [[[st n] given] wf]]. destruct i as [[[dir negid] profile] words].
   unfold ext_step_code, ext_step_ok, tgt_jitterbuffer. cbv zeta.
-  destruct (tgt =? 9) eqn:JB;
-  destruct (st =? 4) eqn:S4; destruct (st =? 2) eqn:S2; destruct (st =? 3) eqn:S3;
-  destruct (st =? 0) eqn:S0; destruct (st =? 1) eqn:S1;
-  destruct (dir =? 0) eqn:D0; destruct (dir =? 3) eqn:D3; destruct (wf =? 1) eqn:W;
-  destruct (1500 <? n) eqn:N0; destruct (given <? n) eqn:N1; destruct (n =? given) eqn:N2;
-  cbn [andb orb negb]; try lia;
+  destruct (tgt =? 9) eqn:JB; cbn [andb];
+  repeat match goal with |- context [if ?b then _ else _] => destruct b eqn:? end;
   (split; intro H; [first [discriminate H | lia] | first [reflexivity | exfalso; lia]]).
 Qed.
 
